@@ -411,10 +411,11 @@ Qed.
 Notation Core := (Core text).
 
 Lemma Core_set_ld c ld : Core c -> Core (set_ld c ld).
-Proof. clear Hvalid. intros [L Ch P Aw Af Ns D En]. split; cbn; auto. Qed.
+Proof. clear Hvalid. intros [L Ch P Aw Af Ns D En Cu]. split; cbn; auto. Qed.
 
-Lemma Core_set_cur_attrs c l : Core c -> Core (set_cur_attrs c l).
-Proof. clear Hvalid. intros [L Ch P Aw Af Ns D En]. split; cbn; auto. Qed.
+Lemma Core_set_cur_attrs c l : Core c -> Forall (fun a => snd (ta_range a) <> 0) l ->
+  Core (set_cur_attrs c l).
+Proof. clear Hvalid. intros [L Ch P Aw Af Ns D En Cu] Hl. split; cbn; auto. Qed.
 
 Lemma normalize_attribute_safe value c : Core c -> SliceOk text value ->
   safe (normalize_attribute text value c)
@@ -431,10 +432,11 @@ Proof.
 Qed.
 
 Lemma process_attribute_safe r qn eq prefix local value c : Core c -> SliceOk text value ->
+  snd r <> 0 ->
   safe (process_attribute text r qn eq prefix local value c)
        (fun c' => Core c' /\ c_tag_name c' = c_tag_name c).
 Proof.
-  intros Hc Hv. unfold process_attribute.
+  intros Hc Hv Hr0. unfold process_attribute.
   eapply safe_bind; [apply normalize_attribute_safe; auto|].
   intros [v c1] (H1 & Ht1 & Hd1 & Hn1). cbv beta iota zeta.
   pose proof (core_doc text c1 H1) as Hdoc. pose proof (core_ns_start text c1 H1) as Hns.
@@ -456,6 +458,7 @@ Proof.
       eapply safe_bind; [apply ns_exists_safe; auto|]. intros ex _. cbv beta.
       destruct ex; [apply err_from_safe; auto|]. apply Hpush.
     + cbn. split; [apply Core_set_cur_attrs; auto|auto].
+      apply Forall_app; split; [apply H1|]. constructor; auto.
 Qed.
 
 (* ---- process_cdata ---- *)
